@@ -54,7 +54,7 @@ CHECKS.update({
  "C07": dict(
    technique="explicit-state exploration of (old program, edit, swap time) histories with compile-fault injection over the real runtimes, differential oracle against uninterrupted and fresh runs (shape S)",
    text="Programs are fixed-arity tuples of independent stateful voices; for every old program, slot and edit (insert, delete, replace, constant change, nesting, non-compiling text) and every swap time the real runtime is driven through run / compile / hot-swap / run, and each channel is compared with the uninterrupted run of the old program (untouched sites), a fresh run started at the swap time (new sites) or the closed form of a counter (changed constant); a non-compiling edit must be rejected and change nothing. Two further parts: edits inside a function reached through a chain of 1-4 stateful calls, and batch edits that remove two sites before an untouched one and insert two after it in one swap ((a, b, X) -> (X, c, d) and the mirror image), where X's channel must continue.",
-   note="Any order-preserving pairing among identically written siblings is accepted. Expected values come from other runs of the same runtime, never from hand-written numbers. Recompilation and payload preparation are the CLI file runner's own (hook), except its compiler subprocess.",
+   note="Also explored: edits inside a function reached through a chain of stateful calls, batch edits that move a site by two positions, and edits that add or remove function definitions around an unchanged dsp. Any order-preserving pairing among identically written siblings is accepted. Expected values come from other runs of the same runtime, never from hand-written numbers. Recompilation and payload preparation are the CLI file runner's own (hook), except its compiler subprocess.",
    design="4/C07"),
 })
 CHECKS.update({
@@ -96,7 +96,7 @@ CHECKS.update({
  "C09": dict(
    technique="bounded-exhaustive enumeration of (family program, expression node, staging mode) triples - every node of every program below the bound quoted and spliced back - and of (stage-1 expression, staging context) pairs and lifted numeric computations; differential execution of the staged program against its expansion (the untransformed program, or a template written by the harness), on both backends (shape E)",
    text="Every expression of a menu covering each stage-1 construct is placed in every staging context (quote/splice, identity macro, macro-stage let spliced once and twice, f!(a) vs $(f(a)), nested contexts, two-argument and composed macros, code-building recursion) and compared bit for bit, for N samples on VM and WASM, with the hand-expanded program; numbers computed at the macro stage and lifted must equal the f64 the harness computes. In addition every program of the state-layout, closure and aggregate families below the bound is taken with each single expression node (operand, argument, callee, condition, branch, let value, lambda, block, member, mem/delay operand) quoted and spliced back on the spot in three ways (`$(`(e))`, through an identity macro, through a macro that let-binds the code value): the result must behave exactly like the untransformed program (VM on every case; WASM on every 8th in the quick tier, on all in the thorough tier).",
-   note="Menus are finite (21 expressions x 9 contexts, nesting depth 2); the family part is deviation-1 (one quoted node per program). Expansions are the harness's templates or the untransformed program, never produced by the compiler.",
+   note="Menus are finite (21 expressions x 9 contexts, nesting depth 2; 102 placeholder-pipe expressions `a ||> f(_, b)` nested to depth 2, each against its hand expansion, plain and quoted); the family part is deviation-1 (one quoted node per program). Expansions are the harness's templates or the untransformed program, never produced by the compiler.",
    design="4/C09"),
  "C10": dict(
    technique="bounded-exhaustive enumeration of (macro body, binder naming, spliced argument, use site) combinations; metamorphic comparison of each program with its alpha-renamed variant (shape E)",
@@ -115,7 +115,7 @@ CHECKS.update({
  "C14": dict(
    technique="bounded-exhaustive enumeration of syntactically valid programs (families, layout/comment variants, single-gap comment and line-break deviations, hand-written production coverage, corpus) x line widths through the real formatter, with parse-back, comment and fixed-point oracles (shape E)",
    text="Every program of the families below the bound in ten layout/comment variants (among them a block comment at the start, and at the end, of every line), thirty hand-written texts covering the remaining productions (match, type declarations, typed parameters and lambdas, record patterns, modules, use lists, ...) in the same variants, every corpus file that parses, and every single-gap deviation (a block comment at every token boundary; inside parentheses and square brackets also a line break and a line comment) of every one-operation program and of every text, is formatted at six widths; the output must parse without errors to the same AST (spans erased), contain the same comments in the same order, and be a fixed point of the formatter.",
-   note="AST equality uses mimium's own structural print with spans erased. Indent size fixed at the default. Seven formatter defects found by this check were repaired in the repository (fix commits 2ea57d3..da018f5); no finding is open for it.",
+   note="AST equality uses mimium's own structural print with spans erased. Indent size fixed at the default. Eleven formatter defects found by this check were repaired in the repository (fix commits 2ea57d3..7f555aa); no finding is open for it.",
    design="4/C14"),
 })
 CHECKS.update({
